@@ -23,6 +23,9 @@ use std::collections::{BTreeMap, BTreeSet};
 pub enum DFault {
     BuggifyGenerate { module: usize, assign: usize },
     BuggifyValidate { module: usize, assign: usize },
+    /// `verif::buggify("link", name)`: linking of the definition fails at once (a LinkerError
+    /// warning that names it; the definition stays as the lexer left it)
+    BuggifyLink { module: usize, assign: usize },
     /// kind: "REAL" | "VideotexString" | "inverted-range" | "MACRO"
     Replace { module: usize, assign: usize, kind: String },
     LexGarbage { module: usize },
@@ -207,7 +210,8 @@ impl Scenario for C10Faults {
             let referenced = !dependents(&set, module, &a.name).is_empty();
             faults.push(match f.below(10) {
                 0..=2 => DFault::BuggifyGenerate { module, assign },
-                3 | 4 => DFault::BuggifyValidate { module, assign },
+                3 => DFault::BuggifyValidate { module, assign },
+                4 => DFault::BuggifyLink { module, assign },
                 5..=8 if a.kind == AKind::Type => {
                     let kinds: &[&str] = if referenced { &["REAL", "VideotexString", "inverted-range"] } else { &["REAL", "VideotexString", "inverted-range", "MACRO"] };
                     DFault::Replace { module, assign, kind: f.pick(kinds).to_string() }
@@ -223,6 +227,7 @@ impl Scenario for C10Faults {
             match fl {
                 DFault::BuggifyGenerate { module, assign } => simcfg.buggify.push(("generate".into(), set.modules[*module].assigns[*assign].name.clone())),
                 DFault::BuggifyValidate { module, assign } => simcfg.buggify.push(("validate".into(), set.modules[*module].assigns[*assign].name.clone())),
+                DFault::BuggifyLink { module, assign } => simcfg.buggify.push(("link".into(), set.modules[*module].assigns[*assign].name.clone())),
                 _ => {}
             }
         }
@@ -325,6 +330,7 @@ impl Scenario for C10Faults {
                 &format!("fault_planned.{}", match f {
                     DFault::BuggifyGenerate { .. } => "buggify-generate".to_string(),
                     DFault::BuggifyValidate { .. } => "buggify-validate".to_string(),
+                    DFault::BuggifyLink { .. } => "buggify-link".to_string(),
                     DFault::Replace { kind, .. } => format!("replace-{kind}"),
                     DFault::LexGarbage { .. } => "lex-garbage".to_string(),
                     DFault::LexAtEnd { kind, .. } => format!("lex-at-end-{kind}"),
@@ -343,6 +349,7 @@ impl Scenario for C10Faults {
                 .map(|f| match f {
                     DFault::BuggifyGenerate { module, assign } => format!("generate({}) fails", p.set.modules[*module].assigns[*assign].name),
                     DFault::BuggifyValidate { module, assign } => format!("validate({}) fails", p.set.modules[*module].assigns[*assign].name),
+                    DFault::BuggifyLink { module, assign } => format!("link({}) fails", p.set.modules[*module].assigns[*assign].name),
                     DFault::Replace { module, assign, kind } => format!("{} replaced by {kind}", p.set.modules[*module].assigns[*assign].name),
                     DFault::LexGarbage { module } => format!("module {} does not lex", p.set.modules[*module].name),
                     DFault::LexAtEnd { module, kind } => format!("module {} fails to lex at the very end of its source ({kind})", p.set.modules[*module].name),
@@ -422,7 +429,9 @@ impl Scenario for C10Faults {
                 DFault::BuggifyGenerate { module, assign } | DFault::BuggifyValidate { module, assign } => {
                     faulted.insert((*module, p.set.modules[*module].assigns[*assign].name.clone()));
                 }
-                DFault::Replace { module, assign, .. } => {
+                // (a definition that was not linked keeps its unresolved references: whatever uses it
+                // through COMPONENTS OF, a constraint or a DEFAULT may legitimately come out differently)
+                DFault::Replace { module, assign, .. } | DFault::BuggifyLink { module, assign } => {
                     let n = p.set.modules[*module].assigns[*assign].name.clone();
                     for d in dependents(&p.set, *module, &n) {
                         affected.insert(d);
@@ -542,7 +551,7 @@ impl Scenario for C10Faults {
         }
         out.count("items_compared_for_locality", compared);
         if p.faults.iter().any(|f| match f {
-            DFault::BuggifyGenerate { module, assign } | DFault::BuggifyValidate { module, assign } | DFault::Replace { module, assign, .. } => !dependents(&p.set, *module, &p.set.modules[*module].assigns[*assign].name).is_empty(),
+            DFault::BuggifyGenerate { module, assign } | DFault::BuggifyValidate { module, assign } | DFault::BuggifyLink { module, assign } | DFault::Replace { module, assign, .. } => !dependents(&p.set, *module, &p.set.modules[*module].assigns[*assign].name).is_empty(),
             _ => false,
         }) {
             out.count("probe.fault_on_a_definition_others_depend_on", 1);
@@ -564,6 +573,7 @@ impl Scenario for C10Faults {
                     match fl {
                         DFault::BuggifyGenerate { module, assign } => q.sim.buggify.push(("generate".into(), q.set.modules[*module].assigns[*assign].name.clone())),
                         DFault::BuggifyValidate { module, assign } => q.sim.buggify.push(("validate".into(), q.set.modules[*module].assigns[*assign].name.clone())),
+                        DFault::BuggifyLink { module, assign } => q.sim.buggify.push(("link".into(), q.set.modules[*module].assigns[*assign].name.clone())),
                         _ => {}
                     }
                 }
@@ -574,7 +584,7 @@ impl Scenario for C10Faults {
         for mi in 0..p.set.modules.len() {
             for ai in (0..p.set.modules[mi].assigns.len()).rev() {
                 let addressed = p.faults.iter().any(|f| match f {
-                    DFault::BuggifyGenerate { module, assign } | DFault::BuggifyValidate { module, assign } | DFault::Replace { module, assign, .. } => *module == mi && *assign == ai,
+                    DFault::BuggifyGenerate { module, assign } | DFault::BuggifyValidate { module, assign } | DFault::BuggifyLink { module, assign } | DFault::Replace { module, assign, .. } => *module == mi && *assign == ai,
                     _ => false,
                 });
                 if addressed {
@@ -585,7 +595,7 @@ impl Scenario for C10Faults {
                     q.set = s2;
                     for f in &mut q.faults {
                         match f {
-                            DFault::BuggifyGenerate { module, assign } | DFault::BuggifyValidate { module, assign } | DFault::Replace { module, assign, .. } => {
+                            DFault::BuggifyGenerate { module, assign } | DFault::BuggifyValidate { module, assign } | DFault::BuggifyLink { module, assign } | DFault::Replace { module, assign, .. } => {
                                 if *module == mi && *assign > ai {
                                     *assign -= 1;
                                 }
